@@ -397,7 +397,7 @@ func extractPoints(points []Point, now Timestamp, maxRetention Duration) (curren
 			if i > 0 {
 				return points[i+1:], points[:i+1]
 			} else {
-				return Points{}, points
+				return points[i+1:], points[:i+1]
 			}
 		}
 	}
